@@ -6,7 +6,8 @@ PROP = dict(
     namespaces=["Comdex.C19"],
     required_theorems=["Comdex.C19.split_sums_to_total", "Comdex.C19.split_lengths", "Comdex.C19.split_each_within_one",
                        "Comdex.C19.epoch_pays_le_allocation", "Comdex.C19.cumulative_le_deposit",
-                       "Comdex.C19.farmer_share_le_prorata", "Comdex.C19.custody_ge_remaining",
+                       "Comdex.C19.farmer_share_le_prorata", "Comdex.C19.master_child_share_le_prorata",
+                       "Comdex.C19.weight_is_min_of_master_and_child_sum", "Comdex.C19.custody_ge_remaining",
                        "Comdex.C19.f64_satisfies_float_hypothesis", "Comdex.C19.farmer_share_le_prorata_1e12_partial",
                        "Comdex.C19.farmer_share_1e12_counterexample", "Comdex.C19.accepted_gauge_split_sums",
                        "Comdex.C19.every_gauge_split_sums", "Comdex.C19.split_zero_epochs_panics",
@@ -23,8 +24,10 @@ PROP = dict(
                   "conversion; Lean proves it for the exact round-to-nearest-even function f64; that Go's strconv.ParseFloat IS that "
                   "function is TESTED (gauge.f64 lines, bit-for-bit, plus the inequality itself on every real conversion), not proved",
                   "int64(math.Floor(x)) for x >= 2^63 is taken to yield a negative number (amd64) so that sdk.NewCoin panics",
-                  "the farmed value of a farmer (pool coin -> reserves -> oracle value) is an input printed by the real keeper functions; "
-                  "its own correctness belongs to C06",
+                  "the redeemable amount of a farmed position (pool coin -> reserves, amm.Withdraw) is an input printed by the real keeper "
+                  "functions (its correctness belongs to C06); the valuation (amount x TWA / decimals x 2), the SUM over child pools and "
+                  "min(master, child sum) are computed by the model from per-(farmer, pool) amounts and prices, not taken from "
+                  "GetAggregatedChildPoolContributions",
                   "external reward programmes: only their ledger effect (tracker, sends, AvailableRewards) and the locker programme's "
                   "share arithmetic are modelled; their clocks and eligibility rules are taken from the real run"],
     assumptions=["one denomination per ledger (the real module account is checked per denomination)",
